@@ -92,7 +92,7 @@ pub fn kitchen_sink(variant: u32) -> Movie {
             MetaItem { typ: cc("desc"), type_code: 1, payload: b"Sum".to_vec(), pre: vec![(cc("mean"), vec![0; 4])], post: vec![] },
         ]),
         hdlr_last: false,
-        udta_extra: vec![],
+        udta_extra: vec![], large_seed: 0,
     });
     m
 }
@@ -196,7 +196,7 @@ pub fn bases(ctx: &Ctx, n_generated: usize) -> Vec<Base> {
                 MetaItem { typ: cc("desc"), type_code: 21, payload: vec![0xff, 0xfe], pre: vec![], post: vec![] },
             ]),
             hdlr_last: v == 0,
-            udta_extra: vec![],
+            udta_extra: vec![], large_seed: 0,
         });
         out.push(mk_base(format!("sinkmeta{}", v), build(&m).bytes, false));
     }
